@@ -25,6 +25,7 @@ package main
 //                int/uint/int8..int64/uint8..uint64/byte/pipeline.SourceID,
 //                `message.Offset`/`message.LeaderEpoch` of a *kgo.Record parameter,
 //                `event.SourceID`/`event.Offset` of a *pipeline.Event parameter, `x.Offset`/`x.Epoch`;
+//                (no / and %: nothing in the fragment can panic except the one Topics[i] read of Commit);
 //   other values kgo.EpochOffset (composite literal with field names, or a local built by field
 //                assignments), p.config.Topics[i] (a topic, represented by its index i), the two map types
 //                map[int32]kgo.EpochOffset and map[string]map[int32]kgo.EpochOffset (literal or make +
@@ -151,6 +152,7 @@ type kbuild struct {
 	used      map[string]bool
 	stack     []string
 	effect    *kvalue // argument of p.client.MarkCommitOffsets
+	topics    int     // number of p.config.Topics[i] reads executed (each one can panic)
 }
 
 type kvar struct{ val kvalue }
@@ -406,6 +408,7 @@ func (f *kframe) expr(x ast.Expr) (kvalue, error) {
 			if iv, err = b.asTyped(iv, kI64, n.Index); err != nil { // a slice index of another integer type is legal Go but not in the fragment
 				return kvalue{}, err
 			}
+			b.topics++
 			return kvalue{kind: vTopic, idx: iv.term}, nil
 		}
 		return kvalue{}, fmt.Errorf("%s: unsupported index expression %s[...]", b.pos(n), kCallName(n.X))
@@ -1289,7 +1292,7 @@ func (f *kframe) decl(s *ast.DeclStmt) error {
 // ---- definitions ---------------------------------------------------------------------------
 
 func (b *kbuild) reset() {
-	b.lets, b.stack, b.effect = nil, nil, nil
+	b.lets, b.stack, b.effect, b.topics = nil, nil, nil, 0
 	b.used = map[string]bool{}
 	for _, r := range kReserved {
 		b.used[r] = true
@@ -1388,6 +1391,9 @@ func (b *kbuild) kCommit(fd *ast.FuncDecl) (string, error) {
 	}
 	if b.effect == nil {
 		return "", fmt.Errorf("%s: Commit does not end with %s.client.MarkCommitOffsets(...)", b.pos(fd), f.recv)
+	}
+	if b.topics != 1 { // the model has exactly one index-out-of-range site
+		return "", fmt.Errorf("%s: Commit reads %s.config.Topics[...] %d times (every read can panic; exactly one expected)", b.pos(fd), f.recv, b.topics)
 	}
 	outer := b.effect.m
 	if len(outer.entries) != 1 {
